@@ -157,10 +157,17 @@ theorem NXActionCTNAT.marshalM_kind (v : V) : ∀ bs v2, NXActionCTNAT.marshalM 
   split at h3
   · revert h3; (repeat peel1); intro h3; cases h3; rfl
   · exact absurd h3 (by simp)
-theorem NXActionConnTrack.marshalWith_kind (sub : V → R (Bytes × V)) (v : V) :
-    ∀ bs v2, NXActionConnTrack.marshalWith sub v = .ok (bs, v2) → v2.kind = v.kind := by
-  mar_kind NXActionConnTrack.marshalWith
-
+theorem NXActionConnTrack.marshalWith_kind (subLen : V → R (UInt16 × V)) (sub : V → R (Bytes × V)) (v : V) :
+    ∀ bs v2, NXActionConnTrack.marshalWith subLen sub v = .ok (bs, v2) → v2.kind = v.kind := by
+  intro bs v2 h
+  unfold NXActionConnTrack.marshalWith at h
+  obtain ⟨⟨l, v'⟩, hl, h3⟩ := bind_ok_inv _ _ _ h
+  have hk := NXActionConnTrack.lenWith_kind _ _ _ _ hl
+  rw [← hk]
+  simp only at h3
+  split at h3
+  · revert h3; (repeat peel1); intro h3; cases h3; rfl
+  · exact absurd h3 (by simp)
 
 /-- the nested-action loop of NXActionConnTrack, second run over the children the first run left behind -/
 theorem NXActionConnTrack.marshalActs_idem (sub : V → R (Bytes × V)) :
@@ -184,6 +191,82 @@ theorem NXActionConnTrack.marshalActs_idem (sub : V → R (Bytes × V)) :
     have ha' := hp a (by simp) ab a' ha
     have ih' := ih _ _ _ _ (fun x hx => hp x (by simp [hx])) hb2
     simp only [NXActionConnTrack.marshalActs, ha', hb1, ih', Res.bind_ok, Res.pure_eq]
+
+
+/-! ### the nested-action loop of NXActionConnTrack as `mapM2` + writing the encodings one after the other -/
+
+/-- `copy(data[n:], b); n += len(b)` for each b in turn (proof device: the buffer part of `marshalActs`) -/
+def writeAll : Bytes → Nat → List Bytes → R Bytes
+  | buf, _, [] => .ok buf
+  | buf, n, b :: bs => do
+    let buf' ← fillFrom buf n [pCopy b]
+    writeAll buf' (n + b.length) bs
+
+theorem NXActionConnTrack.marshalActs_split (sub : V → R (Bytes × V)) :
+    ∀ (acts : List V) (buf : Bytes) (n : Nat) (buf' : Bytes) (acts' : List V),
+      NXActionConnTrack.marshalActs sub acts buf n = .ok (buf', acts') →
+      ∃ bss, mapM2 sub acts = .ok (bss, acts') ∧ writeAll buf n bss = .ok buf' := by
+  intro acts
+  induction acts with
+  | nil =>
+    intro buf n buf' acts' h
+    simp only [NXActionConnTrack.marshalActs] at h
+    cases h
+    exact ⟨[], rfl, rfl⟩
+  | cons a as ih =>
+    intro buf n buf' acts' h
+    simp only [NXActionConnTrack.marshalActs] at h
+    obtain ⟨⟨ab, a'⟩, ha, h2⟩ := bind_ok_inv _ _ _ h
+    obtain ⟨b1, hb1, h3⟩ := bind_ok_inv _ _ _ h2
+    obtain ⟨⟨b2, as'⟩, hb2, h4⟩ := bind_ok_inv _ _ _ h3
+    cases h4
+    obtain ⟨bss, hm, hw⟩ := ih _ _ _ _ hb2
+    refine ⟨ab :: bss, mapM2_cons_of_ok _ _ _ _ _ _ _ ha hm, ?_⟩
+    simp only [writeAll, hb1, Res.bind_ok, hw]
+
+theorem NXActionConnTrack.marshalActs_join (sub : V → R (Bytes × V)) :
+    ∀ (acts : List V) (buf : Bytes) (n : Nat) (buf' : Bytes) (acts' : List V) (bss : List Bytes),
+      mapM2 sub acts = .ok (bss, acts') → writeAll buf n bss = .ok buf' →
+      NXActionConnTrack.marshalActs sub acts buf n = .ok (buf', acts') := by
+  intro acts
+  induction acts with
+  | nil =>
+    intro buf n buf' acts' bss hm hw
+    simp [mapM2] at hm
+    obtain ⟨rfl, rfl⟩ := hm
+    simp only [writeAll] at hw
+    cases hw
+    rfl
+  | cons a as ih =>
+    intro buf n buf' acts' bss hm hw
+    obtain ⟨b, a', bss', as', e1, e2, rfl, rfl⟩ := mapM2_cons_ok _ _ _ _ _ hm
+    simp only [writeAll] at hw
+    obtain ⟨b1, hb1, hw'⟩ := bind_ok_inv _ _ _ hw
+    have := ih _ _ _ _ _ e2 hw'
+    simp only [NXActionConnTrack.marshalActs, e1, hb1, this, Res.bind_ok, Res.pure_eq]
+
+
+/-- The common shape "MarshalBinary() = Len() first (result stored / used), then encode what Len() left behind":
+    if Len() is idempotent and the encoding step `E`, run on a value Len() has settled, leaves a value on which Len()
+    gives the same answer and `E` the same result, then the kind is repeatable. -/
+theorem repeatable_of_lenThen (lenM : V → R (UInt16 × V)) (E : UInt16 → V → R (Bytes × V)) (marshalM : V → R (Bytes × V))
+    (hdef : ∀ v, marshalM v = (lenM v >>= fun lv => E lv.1 lv.2))
+    (hidem : ∀ v, LenIdem lenM v)
+    (hE : ∀ l v1 bs v2, lenM v1 = .ok (l, v1) → E l v1 = .ok (bs, v2) → lenM v2 = .ok (l, v2) ∧ E l v2 = .ok (bs, v2)) :
+    ∀ v, Repeatable lenM marshalM v := by
+  intro v
+  refine ⟨hidem v, ?_, ?_, ?_⟩
+  · intro bs v2 h2
+    rw [hdef] at h2
+    obtain ⟨⟨l, v1⟩, hl, h3⟩ := bind_ok_inv _ _ _ h2
+    obtain ⟨e1, e2⟩ := hE l v1 bs v2 (hidem v l v1 hl) h3
+    rw [hdef, e1]; exact e2
+  · intro l v1 bs v2 h1 h2
+    rw [hdef, h1] at h2
+    exact (hE l v1 bs v2 (hidem v l v1 h1) h2).1
+  · intro l v1 bs v2 h1 h2
+    rw [hdef, h1] at h2
+    rw [hdef, hidem v l v1 h1]; exact h2
 
 /-! ### length setters -/
 
